@@ -231,9 +231,13 @@ def run(ctx):
     if ly is not None:
         n += 1
         try:
-            p = ly["params"][0][1]
+            from ..minieval import Mini, Panic, Unsupported
+            FB = {"wow_world_base": F}
             for y in range(256):
-                leap[y] = bool(eval_bool(ly["hir"], {p: y}))
+                try:
+                    leap[y] = bool(Mini(FB, "wow_world_base").call_fn(ly["path"], [y]))
+                except (Unsupported, Panic) as e:
+                    raise ValueError(str(e))
             bad = [y for y in range(256) if leap[y] != (((2000 + y) % 4 == 0 and (2000 + y) % 100 != 0) or (2000 + y) % 400 == 0)]
             if bad:
                 ctx.violate("dt.tables", "leap_year", f"leap_year() differs from the Gregorian rule for years 2000+{bad[:6]}", ly["file"], ly["line"])
